@@ -82,6 +82,10 @@ class ReadonlyInvokeArgCopyForwardingPass(InvokeCopyForwardingBase):
             return False
 
         src = self._assign_root(copy_inst.operands[1])
+        if isinstance(src, IRVariable) and src in self._multi_def:
+            # not in SSA form yet: the source pointer depends on the path
+            # taken; the run of this pass after MakeSSA sees a phi instead
+            return False
         if isinstance(src, IRVariable) and src in aliases:
             return False
         if isinstance(src, IRVariable) and self._has_mutable_same_source_sibling_arg(
